@@ -1,0 +1,17 @@
+//go:build !verif
+
+package bloomsearch
+
+import "context"
+
+// Verification hooks are compiled out without the "verif" build tag.
+
+func verifEvent(kind string, a, b int64) {}
+
+func verifEventS(kind string, a, b int64, s string) {}
+
+func verifPause(point string, a int64) {}
+
+func verifNextID() int64 { return 0 }
+
+func verifWrapCancel(name string, cancel context.CancelFunc) context.CancelFunc { return cancel }
